@@ -40,23 +40,22 @@ vars == <<tid, done>>
 
 T == Traces[tid]
 Cf == [na |-> T.cf.na = 1, mt |-> T.cf.mt = 1, en |-> T.cf.en]
-N0 == Len(T.im)
-St0 == [pv |-> T.pv, minit |-> T.cf.mi, dv |-> T.dv,
-        im |-> [a \in T.imlo..(T.imlo + N0 - 1) |-> T.im[a - T.imlo + 1]],
-        ima |-> [i \in 1..N0 |-> T.imlo + i - 1],
-        regs |-> T.cregs]
-Env0 == [regs |-> <<>>, mem |-> St0.im]
 Recorded == Cf.mt \/ ~Cf.na
+MkSt0 == LET n0 == Len(T.im) IN
+         [pv |-> T.pv, minit |-> T.cf.mi, dv |-> T.dv,
+          im |-> [a \in T.imlo..(T.imlo + n0 - 1) |-> T.im[a - T.imlo + 1]],
+          ima |-> [i \in 1..n0 |-> T.imlo + i - 1],
+          regs |-> T.cregs]
 
 (* observed values: bits (least significant first), or Unknown               *)
-LoadObs(i) == EvalM(T.loads[i].tree, Env0)
-MemObs(i) ==
+LoadObs(i, env) == EvalM(T.loads[i].tree, env)
+MemObs(i, env) ==
   LET o == T.mem[i] IN
-  IF o.tree.k = "bot" THEN ByteBits(St0.im[o.a], 0)         \* never written: still the initial byte
-  ELSE EvalM(o.tree, Env0)
-ItemsObs ==
-  LET m == ReplayM(St0.im, T.items, Cf.en, Env0) IN
-  IF IsU(m) THEN Unknown ELSE [a \in DOMAIN St0.im |-> m[a]]
+  IF o.tree.k = "bot" THEN ByteBits(env.mem[o.a], 0)         \* never written: still the initial byte
+  ELSE EvalM(o.tree, env)
+ItemsObs(env) ==
+  LET m == ReplayM(env.mem, T.items, Cf.en, env) IN
+  IF IsU(m) THEN Unknown ELSE [a \in DOMAIN env.mem |-> m[a]]
 
 BadTree(t) == t.k \in {"missing", "raised", "odd", "deep", "unk"}
 
@@ -70,49 +69,61 @@ FirstFail(C, LO, MO, IO) ==
      ELSE <<>>
 
 (* does the transcribed mapper with quirk set Q predict every value amoco produced? *)
-Matches(Q, LO, MO, IO) ==
-  LET mm == Predict(T.prog, St0, Q, Cf)
-      zf == ZoneFinal(mm, St0)
-  IN /\ \A i \in 1..Len(T.loads) : IsU(LO[i]) \/ BytesBits(RefVal(RegVal(mm, T.loads[i].r), St0)) = LO[i]
+Matches(Q, st0, LO, MO, IO) ==
+  LET mm == Predict(T.prog, st0, Q, Cf)
+      zf == ZoneFinal(mm, st0)
+  IN /\ \A i \in 1..Len(T.loads) : IsU(LO[i]) \/ BytesBits(RefVal(RegVal(mm, T.loads[i].r), st0)) = LO[i]
      /\ Recorded => \A i \in 1..Len(T.mem) : IsU(MO[i]) \/ ByteBits(zf[T.mem[i].a], 0) = MO[i]
-     /\ (Recorded /\ ~IsU(IO)) => RefFinal(mm, St0, Cf.en) = IO
+     /\ (Recorded /\ ~IsU(IO)) => RefFinal(mm, st0, Cf.en) = IO
 
-Quirks == IF Cf.en = 1 THEN {"KeyedStores", "AliasKeySize", "EmptyMapShortcut"} ELSE AsIs
-RECURSIVE Explain(_, _, _, _)
-Explain(k, LO, MO, IO) ==
-  IF k > Cardinality(Quirks) THEN {}
-  ELSE LET S == {q \in SUBSET Quirks : Cardinality(q) = k /\ Matches(q, LO, MO, IO)} IN
-       IF S # {} THEN CHOOSE q \in S : TRUE ELSE Explain(k + 1, LO, MO, IO)
+(* attribution: amoco as it is (all quirks) must predict the case; then quirks are dropped  *)
+(* one at a time, in a fixed order, as long as the prediction still equals every observed   *)
+(* value: the result is an irreducible set of quirks that explains the case, {} if even the *)
+(* full as-is model does not                                                               *)
+QuirkOrder == IF Cf.en = 1 THEN <<"EmptyMapShortcut", "AliasKeySize", "KeyedStores">>
+              ELSE <<"EmptyMapShortcut", "AliasKeySize", "KeyedStores", "MergeLE", "BottomLE", "PtrKeyLE">>
+RECURSIVE Shrink(_, _, _, _, _, _)
+Shrink(S, i, st0, LO, MO, IO) ==
+  IF i > Len(QuirkOrder) THEN S
+  ELSE LET S2 == S \ {QuirkOrder[i]} IN
+       Shrink(IF S2 # {} /\ Matches(S2, st0, LO, MO, IO) THEN S2 ELSE S, i + 1, st0, LO, MO, IO)
+Explain(st0, LO, MO, IO) ==
+  LET all == {QuirkOrder[i] : i \in 1..Len(QuirkOrder)} IN
+  IF Matches(all, st0, LO, MO, IO) THEN Shrink(all, 1, st0, LO, MO, IO) ELSE {}
 
 Verdict ==
+  LET st0 == MkSt0 IN
   IF T.raised # "" THEN [t |-> T.t, v |-> "fail", clause |-> "Total", idx |-> T.at, quirks |-> {}, unk |-> 0, nobs |-> 0]
-  ELSE IF Cf.na /\ ~Disjoint(T.prog, St0) THEN [t |-> T.t, v |-> "excluded", clause |-> "", idx |-> 0, quirks |-> {}, unk |-> 0, nobs |-> 0]
+  ELSE IF Cf.na /\ ~Disjoint(T.prog, st0) THEN [t |-> T.t, v |-> "excluded", clause |-> "", idx |-> 0, quirks |-> {}, unk |-> 0, nobs |-> 0]
   ELSE
-    LET C  == ConcRun(Conc0(St0), T.prog, St0, Cf.en)
-        LO == [i \in 1..Len(T.loads) |-> LoadObs(i)]
-        MO == [i \in 1..Len(T.mem) |-> MemObs(i)]
-        IO == ItemsObs
+    LET env == [regs |-> <<>>, mem |-> st0.im]
+        C  == ConcRun(Conc0(st0), T.prog, st0, Cf.en)
+        LO == [i \in 1..Len(T.loads) |-> LoadObs(i, env)]
+        MO == [i \in 1..Len(T.mem) |-> MemObs(i, env)]
+        IO == ItemsObs(env)
         ff == FirstFail(C, LO, MO, IO)
         unk == Cardinality({i \in 1..Len(T.loads) : IsU(LO[i])}) + Cardinality({i \in 1..Len(T.mem) : IsU(MO[i])})
                  + (IF IsU(IO) THEN 1 ELSE 0)
         nobs == Len(T.loads) + Len(T.mem) + 1
     IN IF ff = <<>> THEN [t |-> T.t, v |-> "ok", clause |-> "", idx |-> 0, quirks |-> {}, unk |-> unk, nobs |-> nobs]
-       ELSE [t |-> T.t, v |-> "fail", clause |-> ff[1], idx |-> ff[2], quirks |-> Explain(1, LO, MO, IO),
+       ELSE [t |-> T.t, v |-> "fail", clause |-> ff[1], idx |-> ff[2], quirks |-> Explain(st0, LO, MO, IO),
              unk |-> unk, nobs |-> nobs]
 
 (* diagnostics for a replayed case (trace records carrying dbg = 1): observed / byte machine /  *)
 (* as-is model, per load and per differing memory byte                                          *)
 Bts(v) == IF IsU(v) THEN <<"U">> ELSE [k \in 1..(Len(v) \div 8) |-> ToNat(Slice(v, 8 * (k - 1), 8))]
 Detail ==
-  LET C  == ConcRun(Conc0(St0), T.prog, St0, Cf.en)
-      mm == Predict(T.prog, St0, AsIs, Cf)
-      zf == ZoneFinal(mm, St0)
+  LET st0 == MkSt0
+      env == [regs |-> <<>>, mem |-> st0.im]
+      C  == ConcRun(Conc0(st0), T.prog, st0, Cf.en)
+      mm == Predict(T.prog, st0, AsIs, Cf)
+      zf == ZoneFinal(mm, st0)
       sm == SymRun(EmptyMs, T.prog, AsIs, Cf)
-  IN [loads |-> [i \in 1..Len(T.loads) |-> [r |-> T.loads[i].r, obs |-> Bts(LoadObs(i)), exp |-> C.regs[T.loads[i].r],
-                                            asis |-> RefVal(RegVal(mm, T.loads[i].r), St0),
+  IN [loads |-> [i \in 1..Len(T.loads) |-> [r |-> T.loads[i].r, obs |-> Bts(LoadObs(i, env)), exp |-> C.regs[T.loads[i].r],
+                                            asis |-> RefVal(RegVal(mm, T.loads[i].r), st0),
                                             sym |-> RegVal(sm, T.loads[i].r)]],
-      mem |-> [i \in {j \in 1..Len(T.mem) : Bts(MemObs(j)) # <<C.mem[T.mem[j].a]>> \/ zf[T.mem[j].a] # C.mem[T.mem[j].a]} |->
-                 [a |-> T.mem[i].a, obs |-> Bts(MemObs(i)), exp |-> C.mem[T.mem[i].a], asis |-> zf[T.mem[i].a]]],
+      mem |-> [i \in {j \in 1..Len(T.mem) : Bts(MemObs(j, env)) # <<C.mem[T.mem[j].a]>> \/ zf[T.mem[j].a] # C.mem[T.mem[j].a]} |->
+                 [a |-> T.mem[i].a, obs |-> Bts(MemObs(i, env)), exp |-> C.mem[T.mem[i].a], asis |-> zf[T.mem[i].a]]],
       symmap |-> sm.map]
 
 Init == tid \in 1..Len(Traces) /\ done = FALSE
